@@ -140,7 +140,7 @@ FILE * simfs_fopen(const char * path, const char * mode) {
 	std::string norm = simfs_normalize(path, &too_long);
 	bool writing = mode[0] == 'w' || mode[0] == 'a';
 	OpenRecord rec;
-	rec.path = norm; rec.nth = 0; rec.ok = false; rec.err = 0; rec.complete = false;
+	rec.path = norm; rec.nth = 0; rec.ok = false; rec.err = 0; rec.complete = false; rec.writing = writing;
 
 	auto fail = [&](int e, const char * kind) -> FILE * {
 		rec.err = e;
@@ -160,7 +160,7 @@ FILE * simfs_fopen(const char * path, const char * mode) {
 		Cookie * k = new Cookie();
 		k->writing = true; k->path = norm;
 		if (mode[0] == 'a') { auto it = g_sim.files.find(norm); if (it != g_sim.files.end() && !it->second.versions.empty()) k->data = it->second.versions.back(); }
-		rec.ok = true;
+		rec.ok = true; rec.writing = true;
 		g_sim.open_log.push_back(rec);
 		k->log_index = g_sim.open_log.size() - 1;
 		cookie_io_functions_t io = { NULL, ck_write, NULL, ck_close };
